@@ -118,6 +118,7 @@ func newContractSet() *ContractSet {
 	cs := &ContractSet{Funcs: map[string]*Contract{}, Deps: map[string]*Contract{}, Pures: map[string]*PureFunc{}, Ghosts: map[string]*GhostDecl{}, ChanLinks: map[string]string{}}
 	// built-in ghost field: a non-blocking select on ctx.Done() took the cancellation branch
 	cs.Ghosts["ctxCancelSeen"] = &GhostDecl{Kind: "field", Name: "ctxCancelSeen", Params: []Param{{"x", "int"}}, Ret: "bool"}
+	cs.Ghosts["ctxPolledLive"] = &GhostDecl{Kind: "field", Name: "ctxPolledLive", Params: []Param{{"x", "int"}}, Ret: "bool"}
 	return cs
 }
 
